@@ -838,7 +838,7 @@ class Undefined(LocalValue):
     """Undefined value, this value must never be used."""
 
     def __str__(self):
-        return f"{self.name} = undefined"
+        return f"{self.ty} {self.name} = undefined"
 
 
 class Const(LocalValue):
@@ -1136,10 +1136,22 @@ class Variable(GlobalValue):
         self.value = value
 
     def __str__(self):
-        return (
+        txt = (
             f"{self.binding} variable {self.name} "
             + f"({self.amount} bytes aligned at {self.alignment})"
         )
+        if self.value is not None:
+            # Initial value: hex encoded data and references to labels.
+            parts = []
+            for part in self.value:
+                if isinstance(part, bytes):
+                    parts.append(f"'{hexlify(part).decode('ascii')}'")
+                elif isinstance(part, tuple) and part[0] is ptr:
+                    parts.append(f"&{part[1]}")
+                else:  # pragma: no cover
+                    raise NotImplementedError(str(part))
+            txt += " = " + ", ".join(parts)
+        return txt
 
 
 class Parameter(LocalValue):
@@ -1173,7 +1185,8 @@ class Load(LocalValue):
         self.volatile = volatile
 
     def __str__(self):
-        return f"{self.ty} {self.name} = load {self.address.name}"
+        volatile = "volatile " if self.volatile else ""
+        return f"{self.ty} {self.name} = {volatile}load {self.address.name}"
 
 
 class Store(Instruction):
@@ -1203,7 +1216,8 @@ class Store(Instruction):
     def __str__(self):
         val = self.value.name
         address = self.address.name
-        return f"store {val}, {address}"
+        volatile = "volatile " if self.volatile else ""
+        return f"{volatile}store {val}, {address}"
 
 
 class InlineAsm(Instruction):
